@@ -143,6 +143,8 @@ std::string list_dir(const std::string& dir) {
     std::sort(names.begin(), names.end());
     std::string out;
     for (auto& n : names) {
+        struct stat st;
+        if (stat((dir + "/" + n).c_str(), &st) == 0 && S_ISDIR(st.st_mode)) continue;
         std::ifstream f(dir + "/" + n, std::ifstream::binary);
         std::stringstream ss; ss << f.rdbuf();
         std::string data = ss.str();
@@ -152,7 +154,7 @@ std::string list_dir(const std::string& dir) {
 }
 void wipe_dir(const std::string& dir) {
     if (DIR* d = opendir(dir.c_str())) {
-        while (dirent* e = readdir(d)) if (e->d_name[0] != '.') unlink((dir + "/" + e->d_name).c_str());
+        while (dirent* e = readdir(d)) if (e->d_name[0] != '.') { if (unlink((dir + "/" + e->d_name).c_str()) != 0) rmdir((dir + "/" + e->d_name).c_str()); }
         closedir(d);
     }
 }
@@ -177,7 +179,10 @@ int vh::run_os(int, char**) {
         wipe_dir(dir);
         std::string sess2 = "exp";
         for (const std::string& tok : vh::split(session, ' ')) {
-            if (tok.rfind("PRE:", 0) == 0) {
+            if (tok.rfind("PREDIR:", 0) == 0) {
+                // a directory of that name (e.g. at '<output>.part': the temporary name cannot be opened)
+                mkdir((dir + "/" + tok.substr(7)).c_str(), 0700);
+            } else if (tok.rfind("PRE:", 0) == 0) {
                 std::string kv = tok.substr(4);
                 std::size_t e = kv.find('=');
                 std::ofstream f(dir + "/" + kv.substr(0, e), std::ofstream::binary);
